@@ -233,6 +233,22 @@ Theorem wmts_featureinfo_gate :
     wmts_featureinfo n infos cb pt_in = FI_ok [].
 Proof. exact wmts_fi_gate. Qed.
 
+(* ... and the other way round: without a limit, or with the query point inside the intersection of the limits,
+   every info source of the layer is asked *)
+Theorem wmts_featureinfo_inside_answers :
+  forall n infos cb pt_in gs,
+    authorize_tile Ft_fi n cb = T_ok gs -> (gs = [] \/ pt_in gs = true) ->
+    wmts_featureinfo n infos cb pt_in = match infos with [] => FI_notqueryable | _ => FI_ok infos end.
+Proof. exact wmts_fi_inside. Qed.
+
+(* so under a limit the answer is decided by the query point alone: info is returned exactly when the point lies in
+   the geometry - not when the tile that contains the point merely touches it *)
+Theorem wmts_featureinfo_answers_iff_point_inside :
+  forall n infos cb pt_in gs,
+    authorize_tile Ft_fi n cb = T_ok gs -> gs <> [] -> infos <> [] ->
+    (wmts_featureinfo n infos cb pt_in = FI_ok infos <-> pt_in gs = true).
+Proof. exact wmts_fi_iff_point_inside. Qed.
+
 Theorem wmts_featureinfo_denied_is_403 :
   forall n infos r pt_in,
     r_kind r <> A_unauth -> permitted Ft_fi r n = false ->
@@ -250,6 +266,32 @@ Theorem capabilities_list_only_permitted_layers :
               (forall g, p_lim p = Some g -> isect g n = true) /\
               (forall g, r_lim r = Some g -> isect g n = true).
 Proof. exact capabilities_listed_facts. Qed.
+
+(* the filtered document (any callback result) names only layers of the unfiltered document *)
+Theorem capabilities_filtered_is_subset :
+  forall tree r isect names n,
+    wms_capabilities tree (Some r) isect = CAP_ok names -> In n names ->
+    exists all, wms_capabilities tree None isect = CAP_ok all /\ In n all.
+Proof. exact capabilities_subset_of_unfiltered. Qed.
+
+(* FilteredRootLayer, groups: a group that is not permitted hides its whole subtree, whatever the entries of its sub
+   layers say ... *)
+Theorem capabilities_denied_group_hides_subtree :
+  forall perm m this ch, perm m = false -> cap_child perm (WGroup m this ch) = [].
+Proof. exact cap_denied_group_hides_subtree. Qed.
+
+(* ... and a permitted group without sources of its own is dropped when none of its sub layers is left *)
+Theorem capabilities_empty_group_hidden :
+  forall perm m ch,
+    (forall c, In c ch -> cap_child perm c = []) -> cap_child perm (WGroup m None ch) = [].
+Proof. exact cap_empty_group_hidden. Qed.
+
+(* completeness at the top level: a permitted top level layer is listed *)
+Theorem capabilities_permitted_toplevel_layer_listed :
+  forall tree r isect n o maps infos,
+    r_kind r = A_partial -> In (WLeaf n o maps infos) tree -> cap_permitted r isect n = true ->
+    exists names, wms_capabilities tree (Some r) isect = CAP_ok names /\ In n names.
+Proof. exact capabilities_permitted_toplevel_leaf_listed. Qed.
 
 Theorem capabilities_unauthorized_is_403 :
   forall tree r isect,
